@@ -173,6 +173,7 @@ var items = []string{
 	" ", "\n\t",
 	"<!-- c -->", "<?pi x?>", "<!DOCTYPE x>", "junk", " \u00a0",
 	"<stream:error><host-gone xmlns='urn:ietf:params:xml:ns:xmpp-streams'/></stream:error>",
+	"<stream:error><text xmlns='urn:ietf:params:xml:ns:xmpp-streams'>no condition</text></stream:error>",
 	"<stream:features/>", "<stream:stream>", "</stream:stream>", "<a><b>",
 }
 
@@ -186,7 +187,12 @@ var patterns = map[string][]sv.Op{
 	"write-partial":  {{K: "read", N: 1}, sv.W(sv.GenWrite("message", "x")[:2]...), {K: "read", N: 40, Stop: true}},
 	"ret-other":      {{K: "read", N: 2}, {K: "ret", Ret: "other"}},
 	"ret-eof":        {{K: "readret", N: 40}, {K: "ret", Ret: "eof"}},
+	"ret-wrapeof":    {{K: "readret", N: 40}, {K: "ret", Ret: "wrapeof"}},
+	"ret-iseof":      {{K: "read", N: 1}, {K: "ret", Ret: "iseof"}},
 }
+
+// consumption patterns of the block served with the output stream already closed
+var closedPatterns = []string{"all", "none", "write-partial"}
 
 func (x *runner) exhaustive(depth int) {
 	pk := make([]string, 0, len(patterns))
@@ -255,6 +261,30 @@ func (x *runner) exhaustiveWS(depth int) {
 			return
 		}
 		for _, it := range wsItems {
+			rec(prefix+it, d-1)
+		}
+	}
+	for d := 1; d <= depth; d++ {
+		rec("", d)
+	}
+}
+
+// exhaustiveClosed: the same items served after a local Close(): whatever arrives,
+// stream-level constructs and errors still end Serve with that error, the
+// peer's closing tag with nil.
+func (x *runner) exhaustiveClosed(depth int) {
+	var rec func(prefix string, d int)
+	n := 0
+	rec = func(prefix string, d int) {
+		if d == 0 {
+			for _, tail := range []string{"</stream:stream>", ""} {
+				n++
+				k := closedPatterns[n%len(closedPatterns)]
+				x.one(sv.Spec{NS: "jabber:client", Own: sv.OwnFull, OutClosed: true, Script: prefix + tail, Progs: [][]sv.Op{patterns[k]}, Label: "exh-closed/" + k}, "out-closed", "pattern/"+k)
+			}
+			return
+		}
+		for _, it := range items {
 			rec(prefix+it, d-1)
 		}
 	}
@@ -340,7 +370,7 @@ func (x *runner) random(r *hx.Rand) {
 	if r.Chance(2, 3) {
 		sb.WriteString("</stream:stream>")
 	}
-	x.one(sv.Spec{NS: ns, Own: own, Script: sb.String(), Progs: progs, Label: "random"}, "random")
+	x.one(sv.Spec{NS: ns, Own: own, Script: sb.String(), Progs: progs, OutClosed: r.Chance(1, 6), Label: "random"}, "random")
 }
 
 func (x *runner) randomReader(r *hx.Rand) {
@@ -425,6 +455,7 @@ func main() {
 		}
 		x.exhaustive(depth)
 		x.exhaustiveWS(2)
+		x.exhaustiveClosed(2)
 		for i := 0; i < n; i++ {
 			x.random(r)
 		}
@@ -432,10 +463,11 @@ func main() {
 			x.randomReader(r)
 		}
 	}
-	res.Rule = "inputs: corpus; exhaustive small scope (all sequences of up to 2 (thorough: 3) items from 20 kinds of top-level input " +
+	res.Rule = "inputs: corpus; exhaustive small scope (all sequences of up to 2 (thorough: 3) items from 21 kinds of top-level input " +
 		"— stanzas, other elements, elements holding comments / PIs / stream errors, keep-alives, comment, PI, directive, text, non-ASCII white space, " +
 		"stream error, stream features, restart, close, truncated element — with and without closing tag x 9 handler consumption patterns); " +
 		"seeded random scripts of 1-5 items with element trees of depth 0-3 and a drawn handler program per element (partial writes included); " +
+		"the 21 items again after a local Close() (sequences up to 2); handler results include errors that wrap io.EOF or claim to be it; served WebSocket sessions (13 items, sequences up to 2); " +
 		"the stream reader alone on random documents with and without websocket framing; distinct = hash of the case; " +
 		"non-trivial = at least one handler invocation or a stream-level terminal"
 	res.CaseFiles = append(res.CaseFiles, x.cf.Write(o.Out, 400)...)
@@ -456,6 +488,17 @@ var corpus = []sv.Spec{
 	// serveTests case 14: the end-of-element boundary
 	{NS: "jabber:client", Own: sv.OwnFull, Script: "<iq type='get' id='1234'><unknownpayload xmlns='unknown'/></iq><iq type='get' id='5'/></stream:stream>", Progs: [][]sv.Op{{{K: "read", N: 8}}}, Label: "corpus/read-beyond-end"},
 	{NS: "jabber:server", Own: "example.net", Script: " <presence from='example.net'/>\n<message from='example.net/x'><body>a</body></message> </stream:stream>", Progs: [][]sv.Op{{{K: "skip", N: 9}}, nil}, Label: "corpus/server-ns"},
+	// only the peer's closing tag ends Serve with nil: not a handler error that wraps io.EOF or says it is io.EOF
+	{NS: "jabber:client", Own: sv.OwnFull, Script: "<a/><b/><c/></stream:stream>", Progs: [][]sv.Op{{{K: "readret", N: 5}, {K: "ret", Ret: "wrapeof"}}}, Label: "corpus/handler-wrapped-eof"},
+	{NS: "jabber:client", Own: sv.OwnFull, Script: "<a/><b/></stream:stream>", Progs: [][]sv.Op{{{K: "ret", Ret: "iseof"}}}, Label: "corpus/handler-is-eof"},
+	// after a local Close() a stream-level construct or a received stream error still ends Serve with that error
+	{NS: "jabber:client", Own: sv.OwnFull, OutClosed: true, Script: "<a/><!-- c --><b/></stream:stream>", Label: "corpus/closed-then-comment"},
+	{NS: "jabber:client", Own: sv.OwnFull, OutClosed: true, Script: " <stream:error><host-gone xmlns='urn:ietf:params:xml:ns:xmpp-streams'/></stream:error>", Label: "corpus/closed-then-stream-error"},
+	{NS: "jabber:client", Own: sv.OwnFull, OutClosed: true, Script: "<message/><a><b></a>", Label: "corpus/closed-then-malformed"},
+	{NS: "jabber:client", Own: sv.OwnFull, OutClosed: true, Script: "<iq type='get' id='x'/><a/></stream:stream>", Label: "corpus/closed-then-request"},
+	// a received stream error without a defined condition is returned as such (text kept)
+	{NS: "jabber:client", Own: sv.OwnFull, Script: "<a/><stream:error><text xmlns='urn:ietf:params:xml:ns:xmpp-streams' xml:lang='en'>going down</text></stream:error>", Label: "corpus/conditionless-stream-error"},
+	{NS: "jabber:client", Own: sv.OwnFull, Script: "<stream:error><app xmlns='urn:example:other'/></stream:error></stream:stream>", Label: "corpus/app-only-stream-error"},
 	// WebSocket framing: the peer's <close/> ends Serve without error, <open/> is a restart, neither reaches a handler
 	{NS: "jabber:client", Own: sv.OwnFull, WS: true, Script: "<message xmlns='jabber:client' from='me@example.net'><body>hi</body></message> <close xmlns='" + wsNS + "'/>", Progs: [][]sv.Op{{{K: "readret", N: 40}}}, Label: "corpus/ws-close"},
 	{NS: "jabber:client", Own: sv.OwnFull, WS: true, Script: "<a xmlns='urn:example:other'/><open xmlns='" + wsNS + "'/><b xmlns='urn:example:other'/>", Label: "corpus/ws-open-midstream"},
